@@ -33,6 +33,11 @@ class _FakeSelector:
         if lp._ready:  # called with timeout 0 on every busy iteration
             lp.controller(False)
             return []
+        if lp.timers_first and timeout is not None and lp.timers_first():
+            # "a reply may take longer than any timer the scheduler has set": with replies outstanding the pending timer fires
+            # first (outside real-time mode the unchanged scheduler sets no timer during a run, so this never changes anything there)
+            lp._vtime += timeout
+            return []
         acted = lp.controller(True)
         if acted or lp._ready:
             return []
@@ -60,6 +65,7 @@ class VLoop(asyncio.BaseEventLoop):
         self.max_iterations = max_iterations
         self.clock_reads = 0
         self.pending_at_close = None
+        self.timers_first = None  # optional predicate: let a pending timer fire before the next reply is delivered
 
     def time(self):
         return self._vtime
